@@ -99,74 +99,104 @@ func exprStr(s string) string { return strings.ReplaceAll(s, "'", "''") }
 type site struct {
 	Name string
 	Tmpl string // @Q@ = hostile string as double-quoted YAML scalar; @R@ = raw inside an outer double-quoted scalar
+	// other files of the scratch repository (root-relative path -> template): local action metadata,
+	// a local reusable workflow
+	Extra map[string]string
 }
 
 const hdr = "on: push\njobs:\n  test:\n    runs-on: ubuntu-latest\n    steps:\n"
 
 var sites = []site{
-	{"job-id", "on: push\njobs:\n  @Q@:\n    runs-on: ubuntu-latest\n    steps:\n      - run: echo\n"},
-	{"step-id", hdr + "      - id: @Q@\n        run: echo\n      - run: echo ${{ steps.nope.outputs.x }}\n"},
-	{"step-id-dup", hdr + "      - id: @Q@\n        run: echo\n      - id: @Q@\n        run: echo\n"},
-	{"matrix-key", "on: push\njobs:\n  test:\n    runs-on: ubuntu-latest\n    strategy:\n      matrix:\n        @Q@: [1, 2]\n    steps:\n      - run: echo ${{ matrix.nope }}\n"},
-	{"matrix-value-dup", "on: push\njobs:\n  test:\n    runs-on: ubuntu-latest\n    strategy:\n      matrix:\n        os: [@Q@, @Q@]\n    steps:\n      - run: echo\n"},
-	{"matrix-exclude-key", "on: push\njobs:\n  test:\n    runs-on: ubuntu-latest\n    strategy:\n      matrix:\n        os: [a]\n        exclude:\n          - @Q@: b\n    steps:\n      - run: echo\n"},
-	{"matrix-exclude-value", "on: push\njobs:\n  test:\n    runs-on: ubuntu-latest\n    strategy:\n      matrix:\n        os: [a]\n        exclude:\n          - os: @Q@\n    steps:\n      - run: echo\n"},
-	{"runner-label", "on: push\njobs:\n  test:\n    runs-on: @Q@\n    steps:\n      - run: echo\n"},
-	{"runner-label-conflict", "on: push\njobs:\n  test:\n    runs-on: [ubuntu-latest, windows-latest, @Q@]\n    steps:\n      - run: echo\n"},
-	{"cron", "on:\n  schedule:\n    - cron: @Q@\njobs:\n  test:\n    runs-on: ubuntu-latest\n    steps:\n      - run: echo\n"},
-	{"cron-descriptor", "on:\n  schedule:\n    - cron: \"@@R@\"\njobs:\n  test:\n    runs-on: ubuntu-latest\n    steps:\n      - run: echo\n"},
-	{"shell", hdr + "      - run: echo\n        shell: @Q@\n"},
-	{"defaults-shell", "on: push\ndefaults:\n  run:\n    shell: @Q@\njobs:\n  test:\n    runs-on: ubuntu-latest\n    steps:\n      - run: echo\n"},
-	{"branch-filter", "on:\n  push:\n    branches: [@Q@, \"^bad\"]\njobs:\n  test:\n    runs-on: ubuntu-latest\n    steps:\n      - run: echo\n"},
-	{"path-filter", "on:\n  push:\n    paths: [@Q@, \" lead\"]\njobs:\n  test:\n    runs-on: ubuntu-latest\n    steps:\n      - run: echo\n"},
-	{"uses-spec", hdr + "      - uses: @Q@\n"},
-	{"uses-docker-tag", hdr + "      - uses: \"docker://exa mple%zz:@R@\"\n"},
-	{"uses-docker-uri", hdr + "      - uses: \"docker://%zz@R@\"\n"},
-	{"uses-local-action", hdr + "      - uses: \"./act/@R@\"\n"},
-	{"uses-reusable-local", "on: push\njobs:\n  call:\n    uses: \"./.github/workflows/@R@.yml\"\n"},
-	{"uses-reusable-spec", "on: push\njobs:\n  call:\n    uses: @Q@\n"},
-	{"unexpected-key", hdr + "      - run: echo\n        @Q@: 1\n"},
-	{"unexpected-key-top", "on: push\n@Q@: 1\njobs:\n  test:\n    runs-on: ubuntu-latest\n    steps:\n      - run: echo\n"},
-	{"env-name", hdr + "      - run: echo\n        env:\n          @Q@: 1\n"},
-	{"permission-scope", "on: push\npermissions:\n  @Q@: read\njobs:\n  test:\n    runs-on: ubuntu-latest\n    steps:\n      - run: echo\n"},
-	{"permission-value", "on: push\npermissions:\n  contents: @Q@\njobs:\n  test:\n    runs-on: ubuntu-latest\n    steps:\n      - run: echo\n"},
-	{"permission-all", "on: push\npermissions: @Q@\njobs:\n  test:\n    runs-on: ubuntu-latest\n    steps:\n      - run: echo\n"},
-	{"event-name", "on: [push, @Q@]\njobs:\n  test:\n    runs-on: ubuntu-latest\n    steps:\n      - run: echo\n"},
-	{"event-name-map", "on:\n  @Q@:\njobs:\n  test:\n    runs-on: ubuntu-latest\n    steps:\n      - run: echo\n"},
-	{"event-type", "on:\n  issues:\n    types: [@Q@]\njobs:\n  test:\n    runs-on: ubuntu-latest\n    steps:\n      - run: echo\n"},
-	{"action-input", hdr + "      - uses: actions/checkout@v4\n        with:\n          @Q@: 1\n"},
-	{"needs", "on: push\njobs:\n  test:\n    needs: [@Q@]\n    runs-on: ubuntu-latest\n    steps:\n      - run: echo\n"},
-	{"needs-dup", "on: push\njobs:\n  a:\n    runs-on: ubuntu-latest\n    steps:\n      - run: echo\n  test:\n    needs: [a, A, @Q@, @Q@]\n    runs-on: ubuntu-latest\n    steps:\n      - run: echo\n"},
-	{"expr-string-index", hdr + "      - run: \"echo ${{ github['@R@'] }}\"\n"},
-	{"expr-raw", hdr + "      - run: \"echo ${{ @R@ }}\"\n"},
-	{"expr-func", hdr + "      - run: \"echo ${{ fn@R@('x') }}\"\n"},
-	{"expr-format", hdr + "      - run: \"echo ${{ format('{0} {9} @R@', 1) }}\"\n"},
-	{"if-cond", hdr + "      - run: echo\n        if: @Q@\n"},
-	{"timeout", "on: push\njobs:\n  test:\n    runs-on: ubuntu-latest\n    timeout-minutes: !!float @Q@\n    steps:\n      - run: echo\n"},
-	{"max-parallel", "on: push\njobs:\n  test:\n    runs-on: ubuntu-latest\n    strategy:\n      max-parallel: !!int @Q@\n      matrix:\n        a: [1]\n    steps:\n      - run: echo\n"},
-	{"bool", hdr + "      - run: echo\n        continue-on-error: !!bool @Q@\n"},
-	{"dispatch-input-type", "on:\n  workflow_dispatch:\n    inputs:\n      a:\n        type: @Q@\njobs:\n  test:\n    runs-on: ubuntu-latest\n    steps:\n      - run: echo\n"},
-	{"dispatch-input-name", "on:\n  workflow_dispatch:\n    inputs:\n      @Q@:\n        type: string\njobs:\n  test:\n    runs-on: ubuntu-latest\n    steps:\n      - run: echo ${{ inputs.nope }}\n"},
-	{"dispatch-choice-default", "on:\n  workflow_dispatch:\n    inputs:\n      a:\n        type: choice\n        options: [x, x]\n        default: @Q@\njobs:\n  test:\n    runs-on: ubuntu-latest\n    steps:\n      - run: echo\n"},
-	{"call-input-name", "on:\n  workflow_call:\n    inputs:\n      @Q@:\n        type: string\n    secrets:\n      @Q@:\njobs:\n  test:\n    runs-on: ubuntu-latest\n    steps:\n      - run: echo ${{ inputs.nope }} ${{ secrets.nope2 }}\n"},
-	{"call-input-type", "on:\n  workflow_call:\n    inputs:\n      a:\n        type: @Q@\njobs:\n  test:\n    runs-on: ubuntu-latest\n    steps:\n      - run: echo\n"},
-	{"service-name", "on: push\njobs:\n  test:\n    runs-on: ubuntu-latest\n    services:\n      @Q@:\n        image: x\n    steps:\n      - run: echo ${{ job.services.nope }}\n"},
-	{"job-output", "on: push\njobs:\n  a:\n    runs-on: ubuntu-latest\n    outputs:\n      @Q@: x\n    steps:\n      - run: echo\n  test:\n    needs: a\n    runs-on: ubuntu-latest\n    steps:\n      - run: echo ${{ needs.a.outputs.nope }}\n"},
-	{"env-expr-key", hdr + "      - run: echo ${{ env.nope.x }}\n        env:\n          @Q@: 1\n"},
-	{"deprecated-command", hdr + "      - run: @Q@\n"},
-	{"workflow-name-key", "name: x\non: push\nrun-name: ${{ @Q@ }}\njobs:\n  test:\n    runs-on: ubuntu-latest\n    steps:\n      - run: echo\n"},
-	{"container-cred", "on: push\njobs:\n  test:\n    runs-on: ubuntu-latest\n    container:\n      image: x\n      credentials:\n        username: u\n        password: @Q@\n    steps:\n      - run: echo\n"},
-	{"concurrency-key", "on: push\nconcurrency:\n  group: x\n  @Q@: y\njobs:\n  test:\n    runs-on: ubuntu-latest\n    steps:\n      - run: echo\n"},
-	{"yaml-error", "on: push\njobs:\n  test:\n    runs-on: ubuntu-latest\n    steps:\n      - run: @Q@: @Q@\n   bad: [\n"},
-	{"yaml-tag", "on: push\njobs:\n  test: !@R@ x\n"},
-	{"anchor", "on: push\njobs:\n  test:\n    runs-on: *@R@\n"},
+	{Name: "job-id", Tmpl: "on: push\njobs:\n  @Q@:\n    runs-on: ubuntu-latest\n    steps:\n      - run: echo\n"},
+	{Name: "step-id", Tmpl: hdr + "      - id: @Q@\n        run: echo\n      - run: echo ${{ steps.nope.outputs.x }}\n"},
+	{Name: "step-id-dup", Tmpl: hdr + "      - id: @Q@\n        run: echo\n      - id: @Q@\n        run: echo\n"},
+	{Name: "matrix-key", Tmpl: "on: push\njobs:\n  test:\n    runs-on: ubuntu-latest\n    strategy:\n      matrix:\n        @Q@: [1, 2]\n    steps:\n      - run: echo ${{ matrix.nope }}\n"},
+	{Name: "matrix-value-dup", Tmpl: "on: push\njobs:\n  test:\n    runs-on: ubuntu-latest\n    strategy:\n      matrix:\n        os: [@Q@, @Q@]\n    steps:\n      - run: echo\n"},
+	{Name: "matrix-exclude-key", Tmpl: "on: push\njobs:\n  test:\n    runs-on: ubuntu-latest\n    strategy:\n      matrix:\n        os: [a]\n        exclude:\n          - @Q@: b\n    steps:\n      - run: echo\n"},
+	{Name: "matrix-exclude-value", Tmpl: "on: push\njobs:\n  test:\n    runs-on: ubuntu-latest\n    strategy:\n      matrix:\n        os: [a]\n        exclude:\n          - os: @Q@\n    steps:\n      - run: echo\n"},
+	{Name: "runner-label", Tmpl: "on: push\njobs:\n  test:\n    runs-on: @Q@\n    steps:\n      - run: echo\n"},
+	{Name: "runner-label-conflict", Tmpl: "on: push\njobs:\n  test:\n    runs-on: [ubuntu-latest, windows-latest, @Q@]\n    steps:\n      - run: echo\n"},
+	{Name: "cron", Tmpl: "on:\n  schedule:\n    - cron: @Q@\njobs:\n  test:\n    runs-on: ubuntu-latest\n    steps:\n      - run: echo\n"},
+	{Name: "cron-descriptor", Tmpl: "on:\n  schedule:\n    - cron: \"@@R@\"\njobs:\n  test:\n    runs-on: ubuntu-latest\n    steps:\n      - run: echo\n"},
+	{Name: "shell", Tmpl: hdr + "      - run: echo\n        shell: @Q@\n"},
+	{Name: "defaults-shell", Tmpl: "on: push\ndefaults:\n  run:\n    shell: @Q@\njobs:\n  test:\n    runs-on: ubuntu-latest\n    steps:\n      - run: echo\n"},
+	{Name: "branch-filter", Tmpl: "on:\n  push:\n    branches: [@Q@, \"^bad\"]\njobs:\n  test:\n    runs-on: ubuntu-latest\n    steps:\n      - run: echo\n"},
+	{Name: "path-filter", Tmpl: "on:\n  push:\n    paths: [@Q@, \" lead\"]\njobs:\n  test:\n    runs-on: ubuntu-latest\n    steps:\n      - run: echo\n"},
+	{Name: "uses-spec", Tmpl: hdr + "      - uses: @Q@\n"},
+	{Name: "uses-docker-tag", Tmpl: hdr + "      - uses: \"docker://exa mple%zz:@R@\"\n"},
+	{Name: "uses-docker-uri", Tmpl: hdr + "      - uses: \"docker://%zz@R@\"\n"},
+	{Name: "uses-local-action", Tmpl: hdr + "      - uses: \"./act/@R@\"\n"},
+	{Name: "uses-reusable-local", Tmpl: "on: push\njobs:\n  call:\n    uses: \"./.github/workflows/@R@.yml\"\n"},
+	{Name: "uses-reusable-spec", Tmpl: "on: push\njobs:\n  call:\n    uses: @Q@\n"},
+	{Name: "unexpected-key", Tmpl: hdr + "      - run: echo\n        @Q@: 1\n"},
+	{Name: "unexpected-key-top", Tmpl: "on: push\n@Q@: 1\njobs:\n  test:\n    runs-on: ubuntu-latest\n    steps:\n      - run: echo\n"},
+	{Name: "env-name", Tmpl: hdr + "      - run: echo\n        env:\n          @Q@: 1\n"},
+	{Name: "permission-scope", Tmpl: "on: push\npermissions:\n  @Q@: read\njobs:\n  test:\n    runs-on: ubuntu-latest\n    steps:\n      - run: echo\n"},
+	{Name: "permission-value", Tmpl: "on: push\npermissions:\n  contents: @Q@\njobs:\n  test:\n    runs-on: ubuntu-latest\n    steps:\n      - run: echo\n"},
+	{Name: "permission-all", Tmpl: "on: push\npermissions: @Q@\njobs:\n  test:\n    runs-on: ubuntu-latest\n    steps:\n      - run: echo\n"},
+	{Name: "event-name", Tmpl: "on: [push, @Q@]\njobs:\n  test:\n    runs-on: ubuntu-latest\n    steps:\n      - run: echo\n"},
+	{Name: "event-name-map", Tmpl: "on:\n  @Q@:\njobs:\n  test:\n    runs-on: ubuntu-latest\n    steps:\n      - run: echo\n"},
+	{Name: "event-type", Tmpl: "on:\n  issues:\n    types: [@Q@]\njobs:\n  test:\n    runs-on: ubuntu-latest\n    steps:\n      - run: echo\n"},
+	{Name: "action-input", Tmpl: hdr + "      - uses: actions/checkout@v4\n        with:\n          @Q@: 1\n"},
+	{Name: "needs", Tmpl: "on: push\njobs:\n  test:\n    needs: [@Q@]\n    runs-on: ubuntu-latest\n    steps:\n      - run: echo\n"},
+	{Name: "needs-dup", Tmpl: "on: push\njobs:\n  a:\n    runs-on: ubuntu-latest\n    steps:\n      - run: echo\n  test:\n    needs: [a, A, @Q@, @Q@]\n    runs-on: ubuntu-latest\n    steps:\n      - run: echo\n"},
+	{Name: "expr-string-index", Tmpl: hdr + "      - run: \"echo ${{ github['@R@'] }}\"\n"},
+	{Name: "expr-raw", Tmpl: hdr + "      - run: \"echo ${{ @R@ }}\"\n"},
+	{Name: "expr-func", Tmpl: hdr + "      - run: \"echo ${{ fn@R@('x') }}\"\n"},
+	{Name: "expr-format", Tmpl: hdr + "      - run: \"echo ${{ format('{0} {9} @R@', 1) }}\"\n"},
+	{Name: "if-cond", Tmpl: hdr + "      - run: echo\n        if: @Q@\n"},
+	{Name: "timeout", Tmpl: "on: push\njobs:\n  test:\n    runs-on: ubuntu-latest\n    timeout-minutes: !!float @Q@\n    steps:\n      - run: echo\n"},
+	{Name: "max-parallel", Tmpl: "on: push\njobs:\n  test:\n    runs-on: ubuntu-latest\n    strategy:\n      max-parallel: !!int @Q@\n      matrix:\n        a: [1]\n    steps:\n      - run: echo\n"},
+	{Name: "bool", Tmpl: hdr + "      - run: echo\n        continue-on-error: !!bool @Q@\n"},
+	{Name: "dispatch-input-type", Tmpl: "on:\n  workflow_dispatch:\n    inputs:\n      a:\n        type: @Q@\njobs:\n  test:\n    runs-on: ubuntu-latest\n    steps:\n      - run: echo\n"},
+	{Name: "dispatch-input-name", Tmpl: "on:\n  workflow_dispatch:\n    inputs:\n      @Q@:\n        type: string\njobs:\n  test:\n    runs-on: ubuntu-latest\n    steps:\n      - run: echo ${{ inputs.nope }}\n"},
+	{Name: "dispatch-choice-default", Tmpl: "on:\n  workflow_dispatch:\n    inputs:\n      a:\n        type: choice\n        options: [x, x]\n        default: @Q@\njobs:\n  test:\n    runs-on: ubuntu-latest\n    steps:\n      - run: echo\n"},
+	{Name: "call-input-name", Tmpl: "on:\n  workflow_call:\n    inputs:\n      @Q@:\n        type: string\n    secrets:\n      @Q@:\njobs:\n  test:\n    runs-on: ubuntu-latest\n    steps:\n      - run: echo ${{ inputs.nope }} ${{ secrets.nope2 }}\n"},
+	{Name: "call-input-type", Tmpl: "on:\n  workflow_call:\n    inputs:\n      a:\n        type: @Q@\njobs:\n  test:\n    runs-on: ubuntu-latest\n    steps:\n      - run: echo\n"},
+	{Name: "service-name", Tmpl: "on: push\njobs:\n  test:\n    runs-on: ubuntu-latest\n    services:\n      @Q@:\n        image: x\n    steps:\n      - run: echo ${{ job.services.nope }}\n"},
+	{Name: "job-output", Tmpl: "on: push\njobs:\n  a:\n    runs-on: ubuntu-latest\n    outputs:\n      @Q@: x\n    steps:\n      - run: echo\n  test:\n    needs: a\n    runs-on: ubuntu-latest\n    steps:\n      - run: echo ${{ needs.a.outputs.nope }}\n"},
+	{Name: "env-expr-key", Tmpl: hdr + "      - run: echo ${{ env.nope.x }}\n        env:\n          @Q@: 1\n"},
+	{Name: "deprecated-command", Tmpl: hdr + "      - run: @Q@\n"},
+	{Name: "workflow-name-key", Tmpl: "name: x\non: push\nrun-name: ${{ @Q@ }}\njobs:\n  test:\n    runs-on: ubuntu-latest\n    steps:\n      - run: echo\n"},
+	{Name: "container-cred", Tmpl: "on: push\njobs:\n  test:\n    runs-on: ubuntu-latest\n    container:\n      image: x\n      credentials:\n        username: u\n        password: @Q@\n    steps:\n      - run: echo\n"},
+	{Name: "concurrency-key", Tmpl: "on: push\nconcurrency:\n  group: x\n  @Q@: y\njobs:\n  test:\n    runs-on: ubuntu-latest\n    steps:\n      - run: echo\n"},
+	{Name: "local-action-metadata-type", Tmpl: hdr + "      - uses: ./act/meta\n",
+		Extra: map[string]string{"act/meta/action.yml": "name: a\ndescription: d\ninputs:\n  x:\n    required: @Q@\n    description: d\nruns:\n  using: node20\n  main: index.js\n", "act/meta/index.js": ""}},
+	{Name: "local-action-metadata-types", Tmpl: hdr + "      - uses: ./act/meta\n",
+		Extra: map[string]string{"act/meta/action.yml": "name: a\ndescription: d\ninputs:\n  x:\n    required: @Q@\n  y:\n    required: @Q@\nruns:\n  using: [@Q@]\n  main: index.js\n", "act/meta/index.js": ""}},
+	{Name: "local-action-metadata-syntax", Tmpl: hdr + "      - uses: ./act/meta\n",
+		Extra: map[string]string{"act/meta/action.yml": "name: a\ninputs:\n  @Q@: @Q@: [\n"}},
+	{Name: "local-action-name", Tmpl: hdr + "      - uses: ./act/meta\n        with:\n          nope: 1\n",
+		Extra: map[string]string{"act/meta/action.yml": "name: @Q@\ndescription: d\ninputs:\n  @Q@:\n    description: d\nruns:\n  using: node20\n  main: index.js\n", "act/meta/index.js": ""}},
+	{Name: "reusable-workflow-metadata-type", Tmpl: "on: push\njobs:\n  call:\n    uses: ./.github/workflows/callee.yml\n",
+		Extra: map[string]string{".github/workflows/callee.yml": "on:\n  workflow_call:\n    inputs:\n      x:\n        type: string\n        required: @Q@\njobs:\n  j:\n    runs-on: ubuntu-latest\n    steps:\n      - run: echo\n"}},
+	{Name: "reusable-workflow-metadata-syntax", Tmpl: "on: push\njobs:\n  call:\n    uses: ./.github/workflows/callee.yml\n",
+		Extra: map[string]string{".github/workflows/callee.yml": "on:\n  workflow_call:\n    inputs:\n      @Q@: @Q@: [\n"}},
+	{Name: "yaml-error", Tmpl: "on: push\njobs:\n  test:\n    runs-on: ubuntu-latest\n    steps:\n      - run: @Q@: @Q@\n   bad: [\n"},
+	{Name: "yaml-tag", Tmpl: "on: push\njobs:\n  test: !@R@ x\n"},
+	{Name: "anchor", Tmpl: "on: push\njobs:\n  test:\n    runs-on: *@R@\n"},
 }
 
-func (s *site) render(h string) string {
-	t := strings.ReplaceAll(s.Tmpl, "@Q@", yamlDQ(h))
+func renderTmpl(t, h string) string {
+	t = strings.ReplaceAll(t, "@Q@", yamlDQ(h))
 	inner := yamlDQ(h)
 	inner = inner[1 : len(inner)-1]
 	return strings.ReplaceAll(t, "@R@", inner)
+}
+
+func (s *site) render(h string) string { return renderTmpl(s.Tmpl, h) }
+
+// writeExtra (re)creates the other files of the site; files of other sites are removed
+func (l *layout) writeExtra(s *site, h string) {
+	for _, d := range []string{"act"} {
+		os.RemoveAll(filepath.Join(l.root, d))
+	}
+	os.Remove(filepath.Join(l.root, ".github", "workflows", "callee.yml"))
+	for rel, t := range s.Extra {
+		p := filepath.Join(l.root, filepath.FromSlash(rel))
+		must(os.MkdirAll(filepath.Dir(p), 0o755))
+		must(os.WriteFile(p, []byte(renderTmpl(t, h)), 0o644))
+	}
 }
 
 // ---- scratch repository ---------------------------------------------------------
@@ -225,6 +255,7 @@ type failure struct {
 	Site     string `json:"site,omitempty"`
 	Hostile  string `json:"hostile,omitempty"`
 	Workflow string `json:"workflow,omitempty"`
+	Extra    map[string]string `json:"extra_files,omitempty"`
 	Mode     string `json:"mode,omitempty"`
 	Detail   string `json:"detail,omitempty"`
 	Source   string `json:"source,omitempty"`
@@ -371,6 +402,7 @@ func (a *partA) fail(f failure) { a.sum.OracleFails = append(a.sum.OracleFails, 
 func (a *partA) eval(st *site, h hostile, emit bool) {
 	src := st.render(h.S)
 	must(os.WriteFile(a.l.wf, []byte(src), 0o644))
+	a.l.writeExtra(st, h.S)
 	// the library's []*Error
 	lin, err := actionlint.NewLinter(io.Discard, &actionlint.LinterOptions{Shellcheck: "", Pyflakes: "", WorkingDir: a.l.root})
 	must(err)
@@ -382,7 +414,14 @@ func (a *partA) eval(st *site, h hostile, emit bool) {
 	}
 	a.sum.Dist[fmt.Sprintf("site:%s", st.Name)] += len(errs)
 	mk := func(what, key, mode, detail string) failure {
-		return failure{What: what, Key: key, Site: st.Name, Hostile: h.Name, Workflow: src, Mode: mode, Detail: detail}
+		f := failure{What: what, Key: key, Site: st.Name, Hostile: h.Name, Workflow: src, Mode: mode, Detail: detail}
+		if len(st.Extra) > 0 {
+			f.Extra = map[string]string{}
+			for rel, t := range st.Extra {
+				f.Extra[rel] = renderTmpl(t, h.S)
+			}
+		}
+		return f
 	}
 	multiline := false
 	for _, e := range errs {
@@ -628,6 +667,94 @@ func sweep(sum *hx.Summary, w io.Writer, src string) {
 	fmt.Fprintf(w, "(mkSc %s %s %s %s, [])\n", hexs(src), rw, sw, hx.CoqList(pts))
 }
 
+// ---- part D: multi-file order ---------------------------------------------------------
+
+var headRe = regexp.MustCompile(`^([^:\n]+\.yml):(\d+):(\d+): (.*) \[([a-z-]+)\]$`)
+
+func partD(l *layout, sum *hx.Summary) {
+	names := []string{"b.yml", "a.yml", "c.yml"}
+	body := map[string]string{
+		"a.yml": "on: push\njobs:\n  test:\n    runs-on: ubuntu-latest\n    steps:\n      - run: echo ${{ nope_a }}\n      - run: echo ${{ github.nope_a }}\n",
+		"b.yml": "on: push\njobs:\n  test:\n    runs-on: bad-label-b\n    steps:\n      - run: echo ${{ nope_b }}\n",
+		"c.yml": "on: push\njobs:\n  test:\n    runs-on: ubuntu-latest\n    steps:\n      - run: echo\n        shell: fish\n",
+	}
+	dir := filepath.Join(l.root, ".github", "workflows")
+	for n, b := range body {
+		must(os.WriteFile(filepath.Join(dir, n), []byte(b), 0o644))
+	}
+	defer func() {
+		for n := range body {
+			os.Remove(filepath.Join(dir, n))
+		}
+	}()
+	orders := [][]int{{0, 1, 2}, {1, 0, 2}, {2, 0, 1}, {0, 2, 1}, {2, 1, 0}, {1, 2, 0}, {0, 1}, {2, 0}}
+	tmpl := "{{range $ := .}}{{$.Filepath}}:{{$.Line}}:{{$.Column}}: {{$.Message}} [{{$.Kind}}]\n{{end}}"
+	for _, ord := range orders {
+		var files []string
+		for _, i := range ord {
+			files = append(files, filepath.Join(".github", "workflows", names[i]))
+		}
+		heads := func(out string) []string {
+			var hs []string
+			for _, ln := range strings.Split(out, "\n") {
+				if headRe.MatchString(ln) {
+					hs = append(hs, ln)
+				}
+			}
+			return hs
+		}
+		for _, mode := range []string{"oneline", "default", "format"} {
+			var ob bytes.Buffer
+			opts := &actionlint.LinterOptions{Shellcheck: "", Pyflakes: "", WorkingDir: l.root, Color: actionlint.ColorOptionKindNever}
+			switch mode {
+			case "oneline":
+				opts.Oneline = true
+			case "format":
+				opts.Format = tmpl
+			}
+			lin, err := actionlint.NewLinter(&ob, opts)
+			must(err)
+			errs, err := lin.LintFiles(files, nil)
+			must(err)
+			sum.Evaluations++
+			sum.Dist["multi_file_order_runs"]++
+			var want []string
+			for _, e := range errs {
+				want = append(want, e.Error())
+			}
+			got := heads(ob.String())
+			mk := func(what, class string) failure {
+				return failure{What: what, Key: fmt.Sprintf("c16:multi-file-order:%s:mode=%s", class, mode), Mode: mode, Detail: fmt.Sprintf("files=%v\nreturned:\n%s\nrendered:\n%s", files, strings.Join(want, "\n"), strings.Join(got, "\n"))}
+			}
+			if strings.Join(got, "\n") != strings.Join(want, "\n") {
+				sum.OracleFails = append(sum.OracleFails, mk("the rendering of a multi-file run is not in the order of the diagnostics the library returns", "rendered-vs-returned"))
+			}
+			// the returned diagnostics are grouped by file in argument order
+			pos := map[string]int{}
+			for i, f := range files {
+				pos[f] = i
+			}
+			last := -1
+			for _, e := range errs {
+				p, ok := pos[e.Filepath]
+				if !ok || p < last {
+					sum.OracleFails = append(sum.OracleFails, mk("the diagnostics of a multi-file run are not grouped by file in the order the files were given", "argument-order"))
+					break
+				}
+				last = p
+			}
+		}
+		// the command line
+		one, _ := runMain(append([]string{"-oneline", "-no-color"}, files...)...)
+		fo, _ := runMain(append([]string{"-no-color", "-format", tmpl}, files...)...)
+		sum.Evaluations += 2
+		if a, b := heads(one), heads(fo); strings.Join(a, "\n") != strings.Join(b, "\n") {
+			sum.OracleFails = append(sum.OracleFails, failure{What: "-oneline and -format render the diagnostics of a multi-file run in different orders", Key: "c16:multi-file-order:cli", Mode: "cli",
+				Detail: fmt.Sprintf("files=%v\n-oneline:\n%s\n-format:\n%s", files, strings.Join(a, "\n"), strings.Join(b, "\n"))})
+		}
+	}
+}
+
 // ---- part C: matcher ----------------------------------------------------------------
 
 func mutateLine(r *hx.Rng, ln string) string {
@@ -695,8 +822,10 @@ func main() {
 		must(err)
 		var f failure
 		must(json.Unmarshal(b, &f))
-		if f.Workflow != "" {
-			st := &site{Name: f.Site, Tmpl: f.Workflow}
+		if strings.HasPrefix(f.Key, "c16:multi-file-order") {
+			partD(l, sum)
+		} else if f.Workflow != "" {
+			st := &site{Name: f.Site, Tmpl: f.Workflow, Extra: f.Extra}
 			a.eval(st, hostile{Name: f.Hostile, S: "\x00unused"}, false)
 		} else {
 			sweep(sum, io.Discard, f.Source)
@@ -803,8 +932,12 @@ func main() {
 	sum.Extra["shipped_pattern"] = pat.Regexp
 	sum.Evaluations += len(all)
 
+	// part D: several files in ONE run, given in an order that is not the sorted one: every mode
+	// renders the diagnostics in the order in which the library returns them
+	partD(l, sum)
+
 	sum.Nontrivial = len(a.nontriv)
-	sum.Rule = fmt.Sprintf("part A: %d echo sites x hostile strings (line feed, CR LF, trailing LF, blank line, tab, ESC sequence, control, CJK, emoji, quote, \" [\", backslash, \": ; \", NEL/LS, plain) written as YAML double-quoted scalars, each linted through the library API and Command.Main in 6 modes (default, -oneline, -oneline -color, {{json .}}, -format with fields; all compared with the library's []*Error); part B: PrettyPrint and GetTemplateFields on every (line, col) in [-1, len+2]^2 for %d sources (ASCII, tabs, CR LF, blank lines, wide, combining, emoji, invalid UTF-8, ESC, NUL); part C: the shipped pattern on the real header lines and random edits of them; non-trivial = a workflow whose diagnostics echo the hostile string (quoted or raw); distinct = distinct workflow text", len(sites), len(pool))
+	sum.Rule = fmt.Sprintf("part A: %d echo sites x hostile strings (line feed, CR LF, trailing LF, blank line, tab, ESC sequence, control, CJK, emoji, quote, \" [\", backslash, \": ; \", NEL/LS, plain) written as YAML double-quoted scalars, each linted through the library API and Command.Main in 6 modes (default, -oneline, -oneline -color, {{json .}}, -format with fields; all compared with the library's []*Error); part B: PrettyPrint and GetTemplateFields on every (line, col) in [-1, len+2]^2 for %d sources (ASCII, tabs, CR LF, blank lines, wide, combining, emoji, invalid UTF-8, ESC, NUL); part C: the shipped pattern on the real header lines and random edits of them; part D: multi-file runs with the files in every order (oneline, default, -format through the library, oneline and -format through Command.Main): rendered order = order of the returned diagnostics = argument order; non-trivial = a workflow whose diagnostics echo the hostile string (quoted or raw); distinct = distinct workflow text", len(sites), len(pool))
 	sum.Samples = append(sum.Samples, map[string]interface{}{"site": sites[9].Name, "workflow": sites[9].render(hostiles[0].S)}, map[string]interface{}{"sweep_source": sweepPool[8]}, map[string]interface{}{"matcher_line": "f:1:2: found 4: [0 */3 * *] [events]"})
 	sum.Write(filepath.Join(*out, "summary.json"))
 }
